@@ -295,7 +295,8 @@ def main(argv):
     kres = []
     try:
         jobs = []
-        units = [u for u in cfg.get("verus", []) if not only_unit or u["unit"] == only_unit]
+        # a unit marked "wip" is under construction: it only runs when asked for by name
+        units = [u for u in cfg.get("verus", []) if (u["unit"] == only_unit) or (not only_unit and not u.get("wip"))]
         with cf.ThreadPoolExecutor(max_workers=int(os.environ.get("VERIF_JOBS", "8"))) as ex:
             for u in units:
                 jobs.append(ex.submit(run_verus_unit, prop, u, workdir, "main"))
